@@ -76,6 +76,7 @@ UpdVerdict(cfg, st, e, u, k) ==
   ELSE IF ~WSumOK(cfg, e) THEN Fail("weighted-sum", k)
   ELSE IF ~TimeEq(cfg, u.s, e.snap) THEN Fail("times", k)
   ELSE IF ~PubsEq(cfg, u.s, e.snap) THEN Fail("retained", k)
+  ELSE IF e.snap.stray # 0 THEN Fail("files-in-location", k)
   ELSE "ok"
 
 (* life cycle: initialize, connect+, validate, update*, finalize *)
